@@ -504,6 +504,9 @@ pub struct CrashOpts {
     /// after everything else: reopen once more and issue an automatically timestamped
     /// write to every recovered key (C12 across crash recovery)
     pub probe_auto_ts: bool,
+    /// after everything else: reopen, delete every recovered key, flush, close, reopen:
+    /// none of them may be back (C02)
+    pub continue_after: bool,
 }
 
 #[derive(Default, Debug, Clone)]
@@ -669,6 +672,41 @@ fn examine(
                 }
             }
             sut3.close();
+        }
+    }
+    if opts.continue_after && level == 0 && !rec.keys.is_empty() {
+        let s4 = new_session(opts.now, cfg, false);
+        if let Ok((mut sut4, rec4)) = recover(*cfg, file.path(), s4) {
+            let mut deleted: Vec<Vec<u8>> = Vec::new();
+            for k in rec4.keys.keys() {
+                if sut4.store().delete(k).is_ok() {
+                    deleted.push(k.clone());
+                }
+            }
+            let flushed = sut4.store().flush().is_ok();
+            sut4.close();
+            stats.recoveries += 2;
+            if flushed {
+                match recover(*cfg, file.path(), new_session(opts.now, cfg, false)) {
+                    Ok((mut sut5, rec5)) => {
+                        for k in &deleted {
+                            if let Some(r) = rec5.keys.get(k) {
+                                out.push(Finding {
+                                    msg: format!(
+                                        "C02: after crash recovery key {} was deleted and the delete acknowledged by flush() and a clean close, but the next open brings it back as {} (ts {})",
+                                        show(k),
+                                        r.value.as_ref().map(|b| show(b)).unwrap_or_else(|e| format!("<{e}>")),
+                                        r.ts
+                                    ),
+                                    desc: desc.to_string(),
+                                });
+                            }
+                        }
+                        sut5.close();
+                    }
+                    Err(e) => out.push(Finding { msg: format!("C02: after crash recovery, deleting every key, flush and clean close the device no longer opens: {e}"), desc: desc.to_string() }),
+                }
+            }
         }
     }
     // C04 (b): crash during recovery's own writes, then recover again
